@@ -174,6 +174,14 @@ def run_tables(shard, rec, B):
         if ok:
             S2 = O.all_strings(2)
             apply_gate(rec, B, "table.copy.CNOT", g2, "CNOT", [c, t], 2, np.repeat(S2, 4, 0), np.tile(np.arange(4), 16), True)
+    # ONE gate object applied to registers of several sizes, in ascending, descending and mixed order
+    for name, qubits in [(nm, (q,)) for nm in ("H", "S", "X", "Y", "Z") for q in (0, 1)] + [("CNOT", (0, 1)), ("CNOT", (1, 0))]:
+        for order in ((2, 3, 4, 2), (4, 3, 2), (3, 2, 3, 5)):
+            gate = ctor[name](*qubits)
+            for N in order:
+                gs = gen.rand_list(rng, 12, N)
+                gs[0, 2 * qubits[0]:2 * qubits[0] + 2] = (1, 1)
+                apply_gate(rec, B, "place.resized." + name, gate, name, list(qubits), N, gs, rng.integers(0, 4, 12), dense=False)
     # numpy-integer qubit labels behave like python integers
     for name in ("H", "S", "X", "Y", "Z"):
         gate = ctor[name](np.int64(1))
